@@ -83,6 +83,10 @@ pub fn universes_for(opts: &Opts) -> Vec<String> {
     if let Ok(l) = std::env::var("VERIF_ONLY_UNIVERSE") {
         return vec![l];
     }
+    if opts.prop == "C07" {
+        // ranges over index types of odd size: see the known finding O14
+        v.push("odd".to_string());
+    }
     if opts.tier == "thorough" {
         for k in 1..8 {
             v.push(format!("s{}k{}", opts.seed, k));
